@@ -2525,6 +2525,8 @@ class Ev:
                 return Poly.atom(("ediv", recv.key(), args[0].key()))      # floor division for a positive divisor: its own atom, never merged with idiv
             if m in ("checked_sub", "checked_add", "checked_mul", "checked_div") and len(args) == 1 and recv.order == 0:
                 return Sym("checked", m[8:], vkey(recv), vkey(args[0]))
+            if m in ("is_sign_positive", "is_positive", "is_sign_negative", "is_negative") and not args and recv.order == 0 and ("f64" in (d or "") or "Signed" in (d or "")):
+                return Sym("signbit", "neg" if "negative" in m else "pos", recv.key())      # the float's sign bit (num_traits' is_positive on f64 is is_sign_positive)
             if m == "abs_sub" and len(args) == 1 and isinstance(args[0], Poly) and recv.order == 0:
                 return Poly.atom(("abs_sub", recv.key(), args[0].key()))   # the positive difference max(a - b, 0): its own atom
             if m == "mul_add" and len(args) == 2:
